@@ -55,6 +55,10 @@ pub fn worker(a: &[String]) -> i32 {
     let nshards: u64 = a[4].parse().unwrap();
     let outfile = a[5].clone();
     let trace = a.get(6).cloned();
+    // never outlive the parent (it may be killed by a time limit)
+    unsafe {
+        libc::prctl(libc::PR_SET_PDEATHSIG, libc::SIGKILL);
+    }
     exec::install_panic_hook();
     let _saved = exec::capture_stdout();
     // progress word shared with the parent through a file mapping
@@ -115,6 +119,10 @@ enum JobEnd {
 }
 
 fn spawn(prop: &str, tier: &str, job: &Job) -> Child {
+    if !bin_for(&job.profile).exists() {
+        eprintln!("MACHINERY-ERROR: worker binary for profile {} is missing: {}", job.profile, bin_for(&job.profile).display());
+        std::process::exit(2);
+    }
     let _ = fs::remove_file(&job.outfile);
     let mut c = Command::new(bin_for(&job.profile));
     c.arg("worker")
@@ -176,6 +184,9 @@ fn run_jobs(prop: &str, tier: &str, jobs: Vec<Job>, par: usize) -> Vec<(Job, Job
                         r.last_prog = p;
                         r.last_change = Instant::now();
                     } else if r.last_change.elapsed() > hang {
+                        if std::env::var("JLMC_DEBUG").is_ok() {
+                            eprintln!("watchdog: killing {} shard {} at progress {}", r.job.profile, r.job.shard, p);
+                        }
                         let _ = r.child.kill();
                         let _ = r.child.wait();
                         let r = running.remove(i);
